@@ -41,7 +41,7 @@ def run_one(binary, cfg, runs, seed, max_len, env_extra=None, watchdog=3600):
     env["VF_FUZZ_RING"] = ring
     if env_extra:
         env.update(env_extra)
-    cmd = [binary, "-runs=%d" % runs, "-seed=%d" % seed, "-max_len=%d" % max_len, "-len_control=50", "-print_final_stats=1", "-artifact_prefix=" + d + "/",
+    cmd = [binary, "-runs=%d" % runs, "-seed=%d" % ((seed & 0x7FFFFFFF) or 1),  # libFuzzer treats 0 as "pick a random seed" "-max_len=%d" % max_len, "-len_control=50", "-print_final_stats=1", "-artifact_prefix=" + d + "/",
            "-timeout=60", "-rss_limit_mb=4096", corpus]
     res = {"cfg": cfg.name, "viols": [], "crashes": [], "summaries": [], "inconclusive": [], "fuzz": {}}
     t0 = time.time()
